@@ -26,6 +26,26 @@
 //!
 //! Emitted frames are parsed by `dgram/frames.rs` + `wirecheck` (independent of
 //! `smoltcp::wire`); stimulus frames are built by the same independent code.
+//!
+//! Three alphabets ("phases") are explored per configuration, each by its own exhaustive BFS:
+//! `mix` (the complete alphabet, socket initially unbound), `tx` (send side + interface
+//! events, socket initially bound) and `rx` (inbound frames + recv/peek, socket initially
+//! bound).  The state spaces are FINITE (time is relative, payload labels are renamed away,
+//! the model queues are bounded by the buffer capacities), so wherever affordable the BFS is
+//! run to its fixpoint = all reachable states for histories of ANY length; the remaining
+//! configurations are explored to a fixed depth (`depth_for`).
+//!
+//! Oracle sensitivity was checked once against seeded faults in a scratch copy of smoltcp
+//! (udp dispatch swallowing the emit error; wrong local_address / source in rx metadata;
+//! recv_slice without the Truncated check; raw peek that dequeues; PacketBuffer padding without
+//! the free-slot check; dequeue_with keeping the packet after a successful emit): each one is
+//! reported by the quick tier under the expected clause.
+//!
+//! Debug aids: `mc C09 --replay <artefact>` prints every api result and frame;
+//! `DGRAM_IMAGE=1` adds the normalised state image; an artefact with
+//! `"replay": {"config": "...", "list_events": true, "choices": []}` lists the alphabet with
+//! its choice indices.  `DGRAM_ONLY` / `DGRAM_DEPTH` / `DGRAM_MAXSTATES` restrict a run while
+//! developing (recorded in the evidence when set).
 
 mod frames;
 
@@ -1704,7 +1724,7 @@ fn depth_for(tier: Tier, c: &Cfg) -> usize {
         }
         (Tier::Quick, Phase::Tx) => match (c.slots, c.eth) {
             (1, _) | (2, _) => FIX,
-            (_, true) => 6,
+            (_, true) => 7,
             (_, false) => 7,
         },
         (Tier::Thorough, Phase::Mix) => match c.slots {
@@ -1716,8 +1736,8 @@ fn depth_for(tier: Tier, c: &Cfg) -> usize {
             (1, _, _) | (2, _, _) => FIX,
             (_, false, _) => FIX,
             (_, true, 4) => FIX,
-            (_, true, 6) => 9,
-            (_, true, _) => 8,
+            (_, true, 6) => 10,
+            (_, true, _) => 9,
         },
     }
 }
@@ -1755,7 +1775,8 @@ pub fn run(tier: Tier) -> i32 {
     let mut rep = Report::new("C09", tier);
     rep.assumptions.push("reference model = two FIFO queues of (metadata, bytes); trusted".into());
     rep.assumptions.push("frame parser/builder (dgram/frames.rs + wirecheck) written from the RFCs, independent of smoltcp::wire; trusted".into());
-    rep.assumptions.push("state merging: fingerprint = Interface::verif_digest + SocketSet debug image with (1) payload ring bytes replaced by the model queues (label renaming), (2) ipv4_id stripped (never on the wire without fragmentation), (3) instants made relative to now (past -> '-', > 3 s ahead -> 'far': only neighbor lifetimes of 60 s, histories last < 55 s); plus model queues, back-pressure counter, pending neighbor request".into());
+    rep.assumptions.push("state merging: fingerprint = Interface::verif_digest + SocketSet debug image with (1) payload ring bytes replaced by the model queues (label renaming), (2) ipv4_id stripped (never on the wire without fragmentation), (3) instants made relative to now (past -> '-', > 3 s ahead -> 'far': only neighbor lifetimes of 60 s, histories last < 55 s, checked at run time), (4) only the allocated records of the metadata rings kept, read position of an EMPTY payload ring dropped (enqueue clears an empty ring first), (5) an expired neighbor wait of the socket == Active; plus model queues, back-pressure counter, pending neighbor request. The arguments are written next to `normalized_image`".into());
+    rep.assumptions.push("model bookkeeping uses public api only: send*/recv*/peek* results, send_queue()/recv_queue()/can_recv(), packet capacities; the single exception is whether a ZERO-length udp datagram was queued (recv_queue() cannot tell), which is read from the socket's public Debug image".into());
     rep.assumptions.push("lenient readings: icmp sockets: checksum field of sent/received ICMP messages masked (the socket re-serialises the message); raw sockets: IP header compared by version/src/dst/protocol/hop limit, payload byte-exact (header documented as re-serialised); 3-byte garbage handed to an icmp/raw socket and datagrams to a destination without route may be dropped or stay queued, but must never appear on the wire differently; a zero-length udp datagram carries no label (order among identical zero-length datagrams is not observable)".into());
     rep.assumptions.push("close() discards queued datagrams (documented); datagram sizes stay far below the MTU (fragmentation is C12's subject)".into());
     let lim = Limits { max_states: std::env::var("DGRAM_MAXSTATES").ok().and_then(|x| x.parse().ok()).unwrap_or(50_000_000), max_wall_s: 36000.0 };
@@ -1797,11 +1818,12 @@ pub fn run(tier: Tier) -> i32 {
                     rep.machinery_errors.push(format!("{}: expected to reach the BFS fixpoint within {} levels", name, FIX));
                 }
                 rep.absorb(&format!("{} d<={}", name, depth), &st);
-                // keep the deepest history of the largest configuration per (phase, kind)
+                // keep the longest of the deepest histories per (phase, kind)
                 if let Some(smp) = samples.into_iter().next() {
+                    let len = smp["deepest_history"].as_array().map_or(0, |a| a.len()) as u64;
                     let e = deepest_sample.entry((cfg.phase, cfg.kind)).or_insert((0, serde_json::Value::Null));
-                    if st.states > e.0 {
-                        *e = (st.states, smp);
+                    if len > e.0 {
+                        *e = (len, smp);
                     }
                 }
             }
